@@ -52,6 +52,8 @@ def R(M, me, h, h2, owned=OWNED):
 def sub_tier_at_bound(M, t):
     """some tier i >= 1 of t is >= max_loop_iterations (number of weak hops in this time step)"""
     a = M.alg
+    if a.two:
+        return a.tier(t, 1) >= M.max_loop
     if a.small:
         return False
     # (index shifted by one, like `tiers[1:]`, so that the solver matches the guard's own quantifier)
@@ -492,7 +494,9 @@ class GetOutputs(_L2):
         a, me = M.alg, A.sim
         t = h["LS"][me]
         ot = h["OT"][me]
-        if a.small:
+        if a.two:
+            exact = Or(ot == t, And(a.time(ot) != a.time(t), a.tier(ot, 1) == 0))
+        elif a.small:
             exact = True
         else:
             i = z3.Int("i!ot")
@@ -574,6 +578,14 @@ def configure_small(sess):
     configure(sess, "small")
 
 
+def configure_small2(sess):
+    configure(sess, "small2")
+
+
+def configure_whole_small2(sess):
+    configure_whole(sess, "small2")
+
+
 def configure_whole(sess, scope="proof"):
     """non-modular cross-check: the four coroutines are inlined into sim_process"""
     _base(sess, scope)
@@ -621,6 +633,14 @@ class SimProcess(_L2):
         out.pop("progress_monotone_since_call")   # sim_process has no caller that needs it (G covers every region)
         return out
 
+    def native_call(self, m):
+        from contracts import scheduler_native as N
+        return N.replay_sim_process_begin(m)
+
+    def native_search(self, budget):
+        for cs in ([0], [0, 0], [0, 4], [0, 5], [0, 0, 0], [0, 5, 0], [0, 0, 5], [0, 4, 4], [1, 6, 0, 0]):
+            yield {"native_case": {"current_step": cs, "max_loop_iterations": 5}}
+
     def site_condition(self, site, e):
         """C09: the guard fires exactly when some sub-step tier of the step has reached the bound"""
         M, h = self._M, self.cur()
@@ -633,6 +653,7 @@ class SimProcess(_L2):
 class SimProcessWhole(SimProcess):
     configure = "configure_whole"
     configure_small = "configure_whole_small"
+    configure_small2 = "configure_whole_small2"
     thorough_only = True
 
     def loop_inv(self):
